@@ -188,7 +188,7 @@ def rule_pb_each(ctx):
             else:
                 r.bad(Finding('R-pb-each', _f(fi), nm, '%s takes `%s` from component %d of `out` and uses it, but nothing is ever written into its storage: '
                                                        'the adjoint of that operand receives no contribution' % (fi.qualname, nm, i), fi.file, fi.lineno))
-    r.floor = 55
+    r.floor = 40
     return r
 
 
